@@ -1,6 +1,7 @@
 package main
 
 import (
+	"bytes"
 	"encoding/hex"
 	"fmt"
 	"runtime"
@@ -89,6 +90,7 @@ func runDecode(cfg *Cfg) {
 // recursion limit on every type that can nest (compared with the reference decoder's verdict), and
 // adversarial length / count claims with the heap growth measured.
 var deepTargets int
+var deepGroupTargets int
 
 // raggedPackedRuns: for every repeated fixed-width field, a packed run whose length is not a multiple of the
 // element width, alone and followed by further records (so that a bound check against the whole input instead of
@@ -155,6 +157,10 @@ func deepAndBig(out *Out, t *Target, r *vschema.Rand, tier string) {
 	path := nestPath(t.S)
 	if len(path) > 0 {
 		deepTargets++
+	}
+	if deepGroupTargets < 3 || tier == "thorough" {
+		deepGroupTargets++
+		deepUnknownGroups(out, t, path)
 	}
 	if len(path) > 0 && (tier == "thorough" || deepTargets <= 4) {
 		depths := []int{9998, 9999, 10000, 10001, 20000}
@@ -350,6 +356,151 @@ func smallLimitWalks(out *Out, t *Target, r *vschema.Rand, tier string) {
 			}
 		}
 	}
+	// unknown GROUPS at the end of a walk: the nesting of groups inside an unknown record is not message nesting —
+	// the reference keeps such a record (byte for byte) whatever RecursionLimit says, as long as the messages
+	// around it fit the limit
+	if len(walks) > 120 {
+		walks = walks[:120]
+	}
+	walks = append([][]int{nil}, walks...)
+	for _, w := range walks {
+		mis := []int{0}
+		for _, j := range w {
+			mis = append(mis, t.S.Msgs[mis[len(mis)-1]].Fields[j].Msg)
+		}
+		for _, g := range []int{1, len(w) + 2, len(w) + 5} {
+			for _, limit := range []int{len(w) + 1, len(w) + 3} {
+				var grp []byte
+				for l := 0; l < g; l++ {
+					grp = protowire.AppendTag(grp, protowire.Number(536870000+l%3), protowire.StartGroupType)
+				}
+				grp = protowire.AppendTag(grp, 1, protowire.VarintType)
+				grp = protowire.AppendVarint(grp, 7)
+				for l := g - 1; l >= 0; l-- {
+					grp = protowire.AppendTag(grp, protowire.Number(536870000+l%3), protowire.EndGroupType)
+				}
+				inner := grp
+				for k := len(w) - 1; k >= 0; k-- {
+					f := t.S.Msgs[mis[k]].Fields[w[k]]
+					if f.Shape == vschema.Map {
+						e := protowire.AppendTag(nil, 2, protowire.BytesType)
+						inner = protowire.AppendBytes(e, inner)
+					}
+					b := protowire.AppendTag(nil, protowire.Number(f.Num), protowire.BytesType)
+					inner = protowire.AppendBytes(b, inner)
+				}
+				for _, discard := range []bool{false, true} {
+					msg := t.B.ToMessage(0, vval.Empty(t.S, 0))
+					var err error
+					opts := proto.UnmarshalOptions{RecursionLimit: limit, DiscardUnknown: discard}
+					p, pm := guard(func() { err = opts.Unmarshal(inner, msg) })
+					replay := fmt.Sprintf("%s\nwalk %s fields %v then an unknown group nested %d deep, RecursionLimit=%d DiscardUnknown=%v input x%x", t.S.Line(), t.Full, w, g, limit, discard, inner)
+					out.Case(fmt.Sprintf("walkgroup:%s:%v:%d:%d:%v", t.Full, w, g, limit, discard), true)
+					out.Count("limit_walk_unknown_group_cases")
+					if p {
+						out.Violate("C06", "walk-panic", "panic on an unknown group under a small recursion limit: "+firstLine(pm), replay)
+						continue
+					}
+					dyn := dynamicpb.NewMessage(t.Desc)
+					refErr := opts.Unmarshal(inner, dyn)
+					if refErr != nil {
+						continue
+					}
+					if err != nil {
+						out.Violate("C14", "rejects-unknown-group", fmt.Sprintf("a stream the reference accepts (unknown group nested %d deep below %d messages, RecursionLimit %d) is rejected: %v", g, len(w), limit, err), replay)
+						out.Violate("C03", "rejects-unknown-group", fmt.Sprintf("well-typed stream rejected: %v", err), replay)
+						continue
+					}
+					gb, e1 := proto.MarshalOptions{Deterministic: true}.Marshal(msg)
+					rb, e2 := proto.MarshalOptions{Deterministic: true}.Marshal(dyn)
+					if e1 == nil && e2 == nil && !bytes.Equal(gb, rb) {
+						out.Violate("C14", "unknown-group-differs", fmt.Sprintf("after decoding an unknown group nested %d deep (DiscardUnknown=%v) the re-encoding differs from the reference: %x vs %x", g, discard, gb, rb), replay)
+					}
+				}
+			}
+		}
+	}
+}
+
+// stackGrowth: how much the stack memory of the process grew while f ran on a fresh goroutine.
+func stackGrowth(f func()) uint64 {
+	var before, after runtime.MemStats
+	done := make(chan struct{})
+	go func() {
+		defer close(done)
+		runtime.ReadMemStats(&before)
+		f()
+		runtime.ReadMemStats(&after)
+	}()
+	<-done
+	if after.StackInuse > before.StackInuse {
+		return after.StackInuse - before.StackInuse
+	}
+	return 0
+}
+
+// deepUnknownGroups: nesting of GROUPS inside an unknown record. (a) Around protowire's limit (10001 levels are
+// accepted, 10002 refused) at the top level and inside a nested message: what the reference accepts must be
+// accepted and kept. (b) Far beyond it: the decoder may reject or accept, but it must not follow the nesting by
+// recursion — stack use has to stay flat however deep the (cheap: one byte per level) nesting is.
+func deepUnknownGroups(out *Out, t *Target, path []int) {
+	nest := func(d int, closed bool) []byte {
+		bs := make([]byte, 0, 10*d+8)
+		for l := 0; l < d; l++ {
+			bs = protowire.AppendTag(bs, 536870001, protowire.StartGroupType)
+		}
+		if closed {
+			for l := 0; l < d; l++ {
+				bs = protowire.AppendTag(bs, 536870001, protowire.EndGroupType)
+			}
+		}
+		return bs
+	}
+	wrap := func(bs []byte) []byte {
+		if len(path) == 0 {
+			return nil
+		}
+		f := t.S.Msgs[0].Fields[path[0]]
+		b := protowire.AppendTag(nil, protowire.Number(f.Num), protowire.BytesType)
+		return protowire.AppendBytes(b, bs)
+	}
+	for _, d := range []int{9999, 10000, 10001} {
+		for _, in := range [][]byte{nest(d, true), wrap(nest(d, true))} {
+			if in == nil {
+				continue
+			}
+			msg := t.B.ToMessage(0, vval.Empty(t.S, 0))
+			var err error
+			p, pm := guard(func() { err = proto.Unmarshal(in, msg) })
+			replay := fmt.Sprintf("deep-groups %s: unknown group nested %d deep (%d bytes)", t.Full, d, len(in))
+			out.Case(fmt.Sprintf("deepgroup:%s:%d:%d", t.Full, d, len(in)), true)
+			out.Count("deep_unknown_group_cases")
+			if p {
+				out.Violate("C06", "deep-panic", "panic on deeply nested unknown groups: "+firstLine(pm), replay)
+				continue
+			}
+			dyn := dynamicpb.NewMessage(t.Desc)
+			if refErr := proto.Unmarshal(in, dyn); refErr == nil && err != nil {
+				out.Violate("C14", "rejects-unknown-group", fmt.Sprintf("unknown group nested %d deep: accepted by the reference, rejected by the generated code: %v", d, err), replay)
+			}
+		}
+	}
+	for _, closed := range []bool{true, false} {
+		const d = 600000
+		in := nest(d, closed)
+		msg := t.B.ToMessage(0, vval.Empty(t.S, 0))
+		var p bool
+		var pm string
+		grown := stackGrowth(func() { p, pm = guard(func() { _ = proto.Unmarshal(in, msg) }) })
+		replay := fmt.Sprintf("deep-groups %s: %d nested start-group tags of an unknown field (closed=%v, %d bytes)", t.Full, d, closed, len(in))
+		out.Case(fmt.Sprintf("deepgroupstack:%s:%v", t.Full, closed), true)
+		out.Count("deep_unknown_group_stack_cases")
+		if p {
+			out.Violate("C06", "deep-panic", "panic on deeply nested unknown groups: "+firstLine(pm), replay)
+		} else if grown > 16<<20 {
+			out.Violate("C06", "unbounded-recursion-unknown-groups", fmt.Sprintf("%d nested unknown groups (%d input bytes) made the stack grow by %d bytes: the nesting is followed by recursion, the stack overflows (a fatal error) for an input ~%d times larger", d, len(in), grown, (1<<30)/(grown+1)+1), replay)
+		}
+	}
 }
 
 func nestPath(s *vschema.Schema) []int {
@@ -510,7 +661,9 @@ func decodeCase(out *Out, t *Target, g *vval.StreamGen, bs []byte, into *vval.Va
 		for rep := 0; rep < 2; rep++ {
 			m2 := t.B.ToMessage(0, into)
 			st := time.Now()
-			guard(func() { _ = proto.UnmarshalOptions{Merge: merge, DiscardUnknown: discard}.Unmarshal(append([]byte(nil), bs...), m2) })
+			guard(func() {
+				_ = proto.UnmarshalOptions{Merge: merge, DiscardUnknown: discard}.Unmarshal(append([]byte(nil), bs...), m2)
+			})
 			if time.Since(st) > 2*time.Second {
 				slow++
 			}
